@@ -298,17 +298,17 @@ Proof.
   destruct Hr as [->|[-> HL]].
   - cbn [Z.eqb negb andb].
     destruct (aget l (s_live st)) as [r'|] eqn:EL.
-    + exists st. rewrite (SO1 _ _ EL) in *. repeat split; auto; try (intros ? ? H; exact H).
+    + exists st. pose proof (SO1 _ _ EL) as ->. repeat split; auto; try (intros ? ? H; exact H).
     + destruct (aget l (s_gen st)) as [g|] eqn:EG.
       { exfalso. apply (SO2 _ _ EG). exact EL. }
-      eexists. split; [reflexivity|]. cbn [s_live s_gen].
+      eexists. split; [reflexivity|]. unfold store_ok, live_le. cbn [s_live s_gen].
       assert (E1 : l * ref_base + 1 = R l) by reflexivity. rewrite E1.
       split; [split|split].
       * intros l0 r0. destruct (Z.eq_dec l0 l) as [->|N].
         -- rewrite aget_aset_eq. now intros [= <-].
         -- rewrite aget_aset_neq by auto. apply SO1.
       * intros l0 g0. destruct (Z.eq_dec l0 l) as [->|N].
-        -- rewrite aget_aset_eq. discriminate.
+        -- rewrite !aget_aset_eq. intros _. discriminate.
         -- rewrite !aget_aset_neq by auto. apply SO2.
       * apply aget_aset_eq.
       * intros l0 x H. destruct (Z.eq_dec l0 l) as [->|N]; [congruence|].
@@ -335,21 +335,50 @@ Section NoGC.
   Variable mut : Z -> mres.
   Variable rep : Z -> Z.
 
+  (* the label set a cached metric text must carry: the relabeling result for an exposed
+     text (met >= 0), the report series' label set for the report names (met = -(idx+1)) *)
+  Definition exp_lset (met : Z) : option Z :=
+    if 0 <=? met then match mut met with MKeep l => Some l | _ => None end
+    else Some (rep (- met - 1)).
+
+  Lemma exp_lset_nonneg met l : 0 <= met -> exp_lset met = Some l -> mut met = MKeep l.
+  Proof.
+    unfold exp_lset. intros H. apply Z.leb_le in H. rewrite H.
+    destruct (mut met); congruence.
+  Qed.
+
   Definition tracked_pairs (h : list (Z * entry)) (m : list (Z * Z)) : Prop :=
     Forall (fun p : Z * Z => exists e, aget (snd p) h = Some e /\ e_ref e = fst p) m.
 
   Record cache_wf (ca : cache) (st : store) : Prop := mkWf {
-    wf_series : forall met eid, aget met (c_series ca) = Some eid ->
+    wf_series : forall met eid, In (met, eid) (c_series ca) ->
                   exists e, aget eid (c_heap ca) = Some e;
-    wf_inj : forall m1 m2 eid, aget m1 (c_series ca) = Some eid -> aget m2 (c_series ca) = Some eid -> m1 = m2;
+    wf_inj : forall m1 m2 eid, In (m1, eid) (c_series ca) -> In (m2, eid) (c_series ca) -> m1 = m2;
     wf_heap : forall eid e, aget eid (c_heap ca) = Some e ->
                 eid < c_next ca /\ e_ref e = R (e_lset e) /\ aget (e_lset e) (s_live st) = Some (e_ref e);
-    wf_keep : forall met eid e, 0 <= met -> aget met (c_series ca) = Some eid ->
-                aget eid (c_heap ca) = Some e -> mut met = MKeep (e_lset e) /\ e_last e <= c_iter ca;
-    wf_drop : forall met it, 0 <= met -> aget met (c_dropped ca) = Some it -> mut met = MDrop;
+    wf_keep : forall met eid e, In (met, eid) (c_series ca) ->
+                aget eid (c_heap ca) = Some e -> exp_lset met = Some (e_lset e) /\ e_last e <= c_iter ca;
+    wf_drop : forall met it, 0 <= met -> In (met, it) (c_dropped ca) -> mut met = MDrop;
     wf_cur : tracked_pairs (c_heap ca) (c_cur ca);
     wf_prev : tracked_pairs (c_heap ca) (c_prev ca)
   }.
+
+  Lemma wf_series_g ca st met eid : cache_wf ca st -> aget met (c_series ca) = Some eid ->
+    exists e, aget eid (c_heap ca) = Some e.
+  Proof. intros W H. eapply wf_series; eauto using aget_In. Qed.
+  Lemma wf_inj_g ca st m1 m2 eid : cache_wf ca st ->
+    aget m1 (c_series ca) = Some eid -> aget m2 (c_series ca) = Some eid -> m1 = m2.
+  Proof. intros W H1 H2. eapply wf_inj; eauto using aget_In. Qed.
+  Lemma wf_keep_g ca st met eid e : cache_wf ca st -> 0 <= met ->
+    aget met (c_series ca) = Some eid -> aget eid (c_heap ca) = Some e ->
+    mut met = MKeep (e_lset e) /\ e_last e <= c_iter ca.
+  Proof.
+    intros W Hm H1 H2. destruct (wf_keep _ _ W met eid e (aget_In _ _ _ H1) H2) as [A B].
+    split; auto. now apply exp_lset_nonneg.
+  Qed.
+  Lemma wf_drop_g ca st met it : cache_wf ca st -> 0 <= met ->
+    aget met (c_dropped ca) = Some it -> mut met = MDrop.
+  Proof. intros W Hm H1. eapply wf_drop; eauto using aget_In. Qed.
 
   Lemma tracked_pairs_le h h' m : heap_le h h' -> tracked_pairs h m -> tracked_pairs h' m.
   Proof.
@@ -383,8 +412,8 @@ Section NoGC.
     - intros eid' e'. destruct (Z.eq_dec eid' eid) as [->|N].
       + rewrite aget_aset_eq. intros [= <-]. cbn. apply (wf_heap0 _ _ H).
       + rewrite aget_aset_neq by auto. apply wf_heap0.
-    - intros met eid' e' Hm Hs. destruct (Z.eq_dec eid' eid) as [->|N].
-      + rewrite aget_aset_eq. intros [= <-]. cbn. destruct (wf_keep0 _ _ _ Hm Hs H). split; auto.
+    - intros met eid' e' Hs. destruct (Z.eq_dec eid' eid) as [->|N].
+      + rewrite aget_aset_eq. intros [= <-]. cbn. destruct (wf_keep0 _ _ _ Hs H). split; auto.
       + rewrite aget_aset_neq by auto. now apply wf_keep0.
     - eapply tracked_pairs_le; eauto.
     - eapply tracked_pairs_le; eauto.
@@ -395,9 +424,7 @@ Section NoGC.
     cache_wf (set_dropped ca (aset met it (c_dropped ca))) st.
   Proof.
     intros W Hd. destruct W. constructor; cbn; auto.
-    intros met' it' Hm. destruct (Z.eq_dec met' met) as [->|N].
-    - intros _. now apply Hd.
-    - rewrite aget_aset_neq by auto. now apply wf_drop0.
+    intros met' it' Hm I. destruct (In_aset _ _ _ _ _ I) as [[-> ->]|I']; auto. eapply wf_drop0; eauto.
   Qed.
 
   Lemma wf_track ca st r eid e :
@@ -409,46 +436,947 @@ Section NoGC.
   Qed.
 
   Lemma wf_add_ref ca st met l it :
-    cache_wf ca st -> aget met (c_series ca) = None ->
-    (0 <= met -> mut met = MKeep l) -> aget l (s_live st) = Some (R l) -> c_iter ca = it ->
+    cache_wf ca st ->
+    exp_lset met = Some l -> aget l (s_live st) = Some (R l) -> c_iter ca = it ->
     cache_wf (fst (add_ref ca met (R l) l)) st /\
     heap_le (c_heap ca) (c_heap (fst (add_ref ca met (R l) l))) /\
     aget (c_next ca) (c_heap (fst (add_ref ca met (R l) l))) = Some (mkEntry (R l) l it) /\
     aget (c_next ca) (c_heap ca) = None.
   Proof.
-    intros W Hn Hk Hl Hit. destruct W. unfold add_ref. cbn [fst].
+    intros W Hk Hl Hit. destruct W. unfold add_ref. cbn [fst].
     assert (Hfresh : aget (c_next ca) (c_heap ca) = None).
     { destruct (aget (c_next ca) (c_heap ca)) eqn:E; auto. destruct (wf_heap0 _ _ E). lia. }
     assert (HL : heap_le (c_heap ca) (aset (c_next ca) (mkEntry (R l) l (c_iter ca)) (c_heap ca))).
     { intros eid e H. destruct (Z.eq_dec eid (c_next ca)) as [->|N]; [congruence|].
       rewrite aget_aset_neq by auto. eauto. }
+    assert (Hold : forall m x, In (m, x) (c_series ca) -> x <> c_next ca).
+    { intros m x I ->. destruct (wf_series0 _ _ I). congruence. }
     split; [|split; [exact HL|split; [|exact Hfresh]]].
     2:{ cbn. rewrite aget_aset_eq. now rewrite Hit. }
     constructor; cbn [c_series c_heap c_next c_iter c_dropped c_cur c_prev].
-    - intros met' eid. destruct (Z.eq_dec met' met) as [->|N].
-      + rewrite aget_aset_eq. intros [= <-]. rewrite aget_aset_eq. eauto.
-      + rewrite aget_aset_neq by auto. intros Hs. destruct (wf_series0 _ _ Hs) as (e & He).
-        destruct (HL _ _ He) as (e' & ? & _). eauto.
-    - intros m1 m2 eid.
-      destruct (Z.eq_dec m1 met) as [->|N1], (Z.eq_dec m2 met) as [->|N2]; auto.
-      + rewrite aget_aset_eq, aget_aset_neq by auto. intros [= <-] H2.
-        destruct (wf_series0 _ _ H2) as (e & He). congruence.
-      + rewrite aget_aset_eq, aget_aset_neq by auto. intros H1 [= <-].
-        destruct (wf_series0 _ _ H1) as (e & He). congruence.
-      + rewrite !aget_aset_neq by auto. apply wf_inj0.
+    - intros met' eid I. destruct (In_aset _ _ _ _ _ I) as [[-> ->]|I'].
+      + rewrite aget_aset_eq. eauto.
+      + destruct (wf_series0 _ _ I') as (e & He). destruct (HL _ _ He) as (e' & ? & _). eauto.
+    - intros m1 m2 eid I1 I2.
+      destruct (In_aset _ _ _ _ _ I1) as [[-> ->]|I1'], (In_aset _ _ _ _ _ I2) as [[-> E2]|I2']; auto.
+      + exfalso. eapply Hold; eauto.
+      + exfalso. subst. eapply Hold; eauto.
+      + eapply wf_inj0; eauto.
     - intros eid e. destruct (Z.eq_dec eid (c_next ca)) as [->|N].
       + rewrite aget_aset_eq. intros [= <-]. cbn. repeat split; auto. lia.
       + rewrite aget_aset_neq by auto. intros H. destruct (wf_heap0 _ _ H) as (A & B & C0).
         repeat split; auto. lia.
-    - intros met' eid e Hm. destruct (Z.eq_dec met' met) as [->|N].
-      + rewrite aget_aset_eq. intros [= <-]. rewrite aget_aset_eq. intros [= <-]. cbn.
-        split; [now apply Hk|lia].
-      + rewrite aget_aset_neq by auto. intros Hs.
-        destruct (wf_series0 _ _ Hs) as (e0 & He0).
-        assert (eid <> c_next ca) by congruence.
+    - intros met' eid e I. destruct (In_aset _ _ _ _ _ I) as [[-> ->]|I'].
+      + rewrite aget_aset_eq. intros [= <-]. cbn. split; [exact Hk|lia].
+      + assert (eid <> c_next ca) by (eapply Hold; eauto).
         rewrite aget_aset_neq by auto. now apply wf_keep0.
     - exact wf_drop0.
     - eapply tracked_pairs_le; eauto.
     - eapply tracked_pairs_le; eauto.
   Qed.
 End NoGC.
+
+(* ------------------------------------------------------------------ the body-only reference semantics *)
+Record abs := mkAbs {
+  ab_seen : list Z;                 (* metric texts stored so far in this body *)
+  ab_samples : list (Z * Z * Z);    (* (label set, t, value) stored, newest first *)
+  ab_tracked : list Z;              (* label sets tracked for staleness *)
+  ab_total : Z;                     (* lines *)
+  ab_added : Z                      (* lines left after relabeling *)
+}.
+Definition abs0 : abs := mkAbs [] [] [] 0 0.
+
+Section Sim.
+  Variable c : cfg.
+  Variable mut : Z -> mres.
+  Variable rep : Z -> Z.
+
+  Definition eff_ts (en : body_entry) : option Z := if honor_ts c then en_ts en else None.
+  Definition eff_t (defT : Z) (en : body_entry) : Z :=
+    match eff_ts en with Some x => x | None => defT end.
+  Definition nots (en : body_entry) : bool :=
+    match eff_ts en with None => true | Some _ => false end.
+
+  (* one exposition line: dropped lines only count as scraped; a line without timestamp of a
+     metric text already stored from this body is a duplicate; everything else is stored *)
+  Definition abs_entry (defT : Z) (a : abs) (en : body_entry) : abs :=
+    match mut (en_met en) with
+    | MKeep l =>
+        if nots en && memb (en_met en) (ab_seen a)
+        then mkAbs (ab_seen a) (ab_samples a) (ab_tracked a) (ab_total a + 1) (ab_added a + 1)
+        else mkAbs (en_met en :: ab_seen a) ((l, eff_t defT en, en_val en) :: ab_samples a)
+                   (if nots en || track_ts c then l :: ab_tracked a else ab_tracked a)
+                   (ab_total a + 1) (ab_added a + 1)
+    | _ => mkAbs (ab_seen a) (ab_samples a) (ab_tracked a) (ab_total a + 1) (ab_added a)
+    end.
+
+  Definition abs_body (defT : Z) (es : list body_entry) : abs := fold_left (abs_entry defT) es abs0.
+
+  Definition app_proj (x : app) : Z * Z * val := (a_lset x, a_t x, a_val x).
+  Definition samp_inj (p : Z * Z * Z) : Z * Z * val := let '(l, t, v) := p in (l, t, VI v).
+
+  Record sim (it : Z) (ca : cache) (apps : list app) (total added : Z) (a : abs) : Prop := mkSim {
+    sim_seen : forall met eid e, 0 <= met -> aget met (c_series ca) = Some eid ->
+                 aget eid (c_heap ca) = Some e -> (e_last e = it <-> In met (ab_seen a));
+    sim_seen_cached : forall met, In met (ab_seen a) -> aget met (c_series ca) <> None;
+    sim_tracked : forall l, amem (R l) (c_cur ca) = true <-> In l (ab_tracked a);
+    sim_apps : map app_proj apps = map samp_inj (ab_samples a);
+    sim_rout : Forall (fun x => a_rout x = R (a_lset x)) apps;
+    sim_total : total = ab_total a;
+    sim_added : added = ab_added a
+  }.
+
+  Record winv (it : Z) (prev0 : list (Z * Z)) (s : lstate) : Prop := mkWinv {
+    wi_store : store_ok (l_store s);
+    wi_wf : cache_wf mut rep (l_cache s) (l_store s);
+    wi_iter : c_iter (l_cache s) = it;
+    wi_prev : c_prev (l_cache s) = prev0
+  }.
+
+  Lemma limited_append_inb s r l t v s' rout err :
+    store_ok (l_store s) -> min_valid c <= t <= max_valid c ->
+    (r = 0 \/ (r = R l /\ aget l (s_live (l_store s)) = Some r)) ->
+    limited_append c s r l t v = (s', rout, err) ->
+    l_cache s' = l_cache s /\ l_total s' = l_total s /\ l_added s' = l_added s /\
+    l_sadded s' = l_sadded s /\ l_limit_err s' = l_limit_err s /\
+    ((err = ELimit /\ l_apps s' = l_apps s /\ l_store s' = l_store s) \/
+     (err = ENone /\ rout = R l /\ l_apps s' = mkApp r l t v (R l) :: l_apps s /\
+      store_ok (l_store s') /\ aget l (s_live (l_store s')) = Some (R l) /\
+      live_le (l_store s) (l_store s'))).
+  Proof.
+    intros SO Ht Hr. unfold limited_append.
+    set (count := (0 <? sample_limit c) && ((r =? 0) || negb (is_stale v))).
+    set (i' := if count then l_i s + 1 else l_i s).
+    destruct (count && (sample_limit c <? i')) eqn:E1.
+    { intros [= <- <- <-]. cbn. repeat split; auto. }
+    destruct (max_valid c <? t) eqn:E2; [apply Z.ltb_lt in E2; lia|].
+    unfold base_append. cbn [l_store].
+    destruct (st_append_ok c (l_store s) r l t SO (proj1 Ht) Hr) as (st' & EA & SO' & HL & LE).
+    rewrite EA. destruct (R l =? 0) eqn:E3; [apply Z.eqb_eq in E3; now apply R_nz in E3|].
+    intros [= <- <- <-]. cbn. repeat split; auto. right. repeat split; auto; apply SO'.
+  Qed.
+
+  Lemma limited_append_err_mono s r l t v s' rout err :
+    limited_append c s r l t v = (s', rout, err) -> l_limit_err s' = l_limit_err s.
+  Proof. intros H. apply limited_append_apps in H. tauto. Qed.
+
+  Definition seen_rel (it : Z) (ser : list (Z * Z)) (heap : list (Z * entry)) (seen : list Z) : Prop :=
+    forall met eid e, 0 <= met -> aget met ser = Some eid -> aget eid heap = Some e ->
+                      (e_last e = it <-> In met seen).
+
+  Lemma seen_rel_touch it ser heap seen met eid e1 seen' :
+    seen_rel it ser heap seen -> aget met ser = Some eid ->
+    (forall m1 m2 x, aget m1 ser = Some x -> aget m2 ser = Some x -> m1 = m2) ->
+    e_last e1 = it -> In met seen' -> (forall m, m <> met -> (In m seen' <-> In m seen)) ->
+    seen_rel it ser (aset eid e1 heap) seen'.
+  Proof.
+    intros SR Hs Inj EL I1 I2 met' eid' e' Hm' Hs' He'.
+    destruct (Z.eq_dec eid' eid) as [->|N].
+    - rewrite aget_aset_eq in He'. injection He' as <-.
+      assert (met' = met) by (eapply Inj; eauto). subst met'. tauto.
+    - rewrite aget_aset_neq in He' by auto.
+      assert (met' <> met) by (intros ->; congruence).
+      rewrite I2 by auto. eapply SR; eauto.
+  Qed.
+
+  Lemma seen_rel_add it ser heap seen met eid e1 :
+    seen_rel it ser heap seen -> aget met ser = None -> aget eid heap = None ->
+    (forall m x, aget m ser = Some x -> aget x heap <> None) ->
+    e_last e1 = it ->
+    seen_rel it (aset met eid ser) (aset eid e1 heap) (met :: seen).
+  Proof.
+    intros SR Hn Hf Hs EL met' eid' e' Hm'.
+    destruct (Z.eq_dec met' met) as [->|N].
+    - rewrite aget_aset_eq. intros [= <-]. rewrite aget_aset_eq. intros [= <-]. split; auto. intros _. now left.
+    - rewrite aget_aset_neq by auto. intros Hs'.
+      assert (eid' <> eid) by (intros ->; now apply (Hs _ _ Hs')).
+      rewrite aget_aset_neq by auto. intros He'. cbn [In].
+      split.
+      + intros E. right. eapply SR; eauto.
+      + intros [E|I]; [congruence|]. eapply SR; eauto.
+  Qed.
+
+  Definition tracked_rel (cur : list (Z * Z)) (tr : list Z) : Prop :=
+    forall l, amem (R l) cur = true <-> In l tr.
+
+  Lemma tracked_rel_track cur tr l eid :
+    tracked_rel cur tr -> tracked_rel (aset (R l) eid cur) (l :: tr).
+  Proof.
+    intros T l'. rewrite amem_aset. cbn [In]. rewrite orb_true_iff, Z.eqb_eq, (T l').
+    split; intros [H|H]; auto. left. now apply R_inj. left. now subst.
+  Qed.
+
+  Lemma do_entry_sim it prev0 defT s a en :
+    winv it prev0 s -> 0 <= en_met en -> min_valid c <= eff_t defT en <= max_valid c ->
+    exists s',
+      (do_entry c mut defT s en = LCont s' \/
+       (do_entry c mut defT s en = LAbort s' /\ mut (en_met en) = MErr)) /\
+      winv it prev0 s' /\
+      (l_limit_err s = true -> l_limit_err s' = true) /\
+      (do_entry c mut defT s en = LCont s' -> l_limit_err s' = false ->
+       sim it (l_cache s) (l_apps s) (l_total s) (l_added s) a ->
+       sim it (l_cache s') (l_apps s') (l_total s') (l_added s') (abs_entry defT a en)).
+  Proof.
+    intros [WS WW WI WP] Hm Ht.
+    unfold do_entry, abs_entry, eff_t, nots, eff_ts in *.
+    set (pts := if honor_ts c then en_ts en else None) in *.
+    set (t := match pts with Some x => x | None => defT end) in *.
+    set (met := en_met en) in *.
+    cbn [l_cache inc_total].
+    destruct (aget met (c_dropped (l_cache s))) as [itd|] eqn:ED.
+    { (* getDropped *)
+      eexists. split; [left; reflexivity|].
+      assert (MD : mut met = MDrop) by (eapply wf_drop_g; eauto).
+      split; [constructor; cbn; auto; apply wf_set_dropped; auto|].
+      split; [cbn; auto|].
+      intros _ _ S. rewrite MD. destruct S. constructor; cbn; auto; lia. }
+    unfold cache_get.
+    destruct (aget met (c_series (l_cache s))) as [eid|] eqn:ES.
+    - (* cached *)
+      destruct (wf_series_g _ _ _ _ _ _ WW ES) as (e & HE).
+      destruct (wf_keep_g _ _ _ _ _ _ _ WW Hm ES HE) as [MK LE].
+      destruct (wf_heap _ _ _ _ WW _ _ HE) as (HN & HR & HLIVE).
+      assert (HG0 : heap_get (l_cache s) eid = e) by (unfold heap_get; now rewrite HE).
+      cbv beta iota zeta. rewrite !HG0.
+      set (e1 := mkEntry (e_ref e) (e_lset e) (c_iter (l_cache s))).
+      set (ca1 := set_heap (l_cache s) (aset eid e1 (c_heap (l_cache s)))).
+      assert (HG1 : heap_get ca1 eid = e1) by (unfold heap_get, ca1; cbn; now rewrite aget_aset_eq).
+      assert (WW1 : cache_wf mut rep ca1 (l_store s)) by (apply wf_touch; auto; lia).
+      rewrite !HG1. cbn [e_ref e_lset e1].
+      destruct ((e_last e =? c_iter (l_cache s)) && match pts with Some _ => false | None => true end) eqn:EDUP.
+      + (* ErrDuplicateSampleForTimestamp *)
+        apply andb_prop in EDUP as [EL EN]. apply Z.eqb_eq in EL.
+        eexists. split; [left; reflexivity|].
+        split; [constructor; cbn; auto|]. split; [cbn; auto|].
+        intros _ _ S. rewrite MK, EN.
+        assert (IM : In met (ab_seen a)).
+        { destruct (sim_seen _ _ _ _ _ _ S met eid e Hm ES HE) as [X _]. apply X. congruence. }
+        assert (HM : memb met (ab_seen a) = true) by now apply memb_In.
+        rewrite HM. cbn [andb].
+        destruct S. constructor; cbn; auto; try lia.
+        eapply seen_rel_touch; eauto. intros ? ? ?; apply (wf_inj_g _ _ _ _ _ _ _ WW). tauto.
+      + (* appended through the limit chain *)
+        destruct (limited_append c (with_cache (inc_total s) ca1) (e_ref e) (e_lset e) t (VI (en_val en)))
+          as [[s2 rout] err] eqn:EA.
+        pose proof (limited_append_err_mono _ _ _ _ _ _ _ _ EA) as EM.
+        apply limited_append_inb in EA; auto.
+        cbn [l_cache l_store l_apps l_total l_added l_sadded l_limit_err with_cache inc_total] in EA, EM.
+        destruct EA as (A1 & A2 & A3 & A4 & A5 & [(-> & A6 & A7)|(-> & -> & A6 & A7 & A8 & A9)]).
+        * (* sample limit *)
+          eexists. split; [left; reflexivity|].
+          split; [constructor; cbn; rewrite ?A1, ?A7; auto|].
+          split; [cbn; auto|]. cbn. discriminate.
+        * destruct (R (e_lset e) =? 0) eqn:E0; [apply Z.eqb_eq in E0; now apply R_nz in E0|].
+          assert (UR : update_ref (l_cache s2) eid (R (e_lset e)) = ca1).
+          { rewrite A1. unfold update_ref. rewrite HG1. cbn [e_ref e1]. rewrite HR, Z.eqb_refl. reflexivity. }
+          rewrite UR, HG1. cbn [e_ref e1]. rewrite HR, E0. cbn [negb]. rewrite andb_true_r.
+          assert (HE1 : aget eid (c_heap ca1) = Some e1) by (unfold ca1; cbn; apply aget_aset_eq).
+          assert (WW2 : cache_wf mut rep ca1 (l_store s2)) by (eapply wf_store_mono; eauto).
+          set (trk := match pts with Some _ => track_ts c | None => true end).
+          assert (WW3 : cache_wf mut rep (if trk then track ca1 (R (e_lset e)) eid else ca1) (l_store s2)).
+          { destruct trk; auto. eapply wf_track; eauto. }
+          eexists. split; [left; reflexivity|].
+          split; [constructor; cbn [l_cache l_store inc_added with_cache]; auto; destruct trk; cbn; auto|].
+          split; [cbn; congruence|].
+          intros _ _ S. rewrite MK.
+          assert (ND : (match pts with Some _ => false | None => true end && memb met (ab_seen a)) = false).
+          { destruct (match pts with Some _ => false | None => true end) eqn:EN; auto. cbn [andb].
+            rewrite andb_true_r in EDUP. apply Z.eqb_neq in EDUP.
+            destruct (memb met (ab_seen a)) eqn:EMB; auto. apply memb_In in EMB.
+            exfalso. apply EDUP. destruct (sim_seen _ _ _ _ _ _ S met eid e Hm ES HE) as [_ X]. rewrite WI. now apply X. }
+          rewrite ND. destruct S.
+          constructor; cbn [l_cache l_apps l_total l_added inc_added with_cache ab_seen ab_samples ab_tracked ab_total ab_added]; try lia.
+          -- assert (SR : seen_rel it (c_series ca1) (c_heap ca1) (met :: ab_seen a)).
+             { unfold ca1. cbn. eapply seen_rel_touch; eauto. intros ? ? ?; apply (wf_inj_g _ _ _ _ _ _ _ WW). now left.
+               intros m Hmm. cbn. split; [intros [?|?]; [congruence|auto]|auto]. }
+             destruct trk; exact SR.
+          -- intros m [<-|I]; destruct trk; cbn; try congruence; now apply sim_seen_cached0.
+          -- replace (match pts with Some _ => false | None => true end || track_ts c) with trk
+               by (unfold trk; destruct pts; reflexivity).
+             destruct trk; cbn [c_cur track set_cur ca1 set_heap].
+             ++ now apply tracked_rel_track.
+             ++ exact sim_tracked0.
+          -- rewrite A6. cbn. unfold app_proj at 1. cbn. now rewrite sim_apps0.
+          -- rewrite A6. constructor; auto.
+    - (* not cached *)
+      cbv beta iota zeta.
+      destruct (mut met) as [l| |] eqn:MM.
+      + destruct (limited_append c (inc_total s) 0 l t (VI (en_val en))) as [[s2 rout] err] eqn:EA.
+        pose proof (limited_append_err_mono _ _ _ _ _ _ _ _ EA) as EM.
+        apply limited_append_inb in EA; auto.
+        cbn [l_cache l_store l_apps l_total l_added l_sadded l_limit_err with_cache inc_total] in EA, EM.
+        destruct EA as (A1 & A2 & A3 & A4 & A5 & [(-> & A6 & A7)|(-> & -> & A6 & A7 & A8 & A9)]).
+        * eexists. split; [left; reflexivity|].
+          split; [constructor; cbn; rewrite ?A1, ?A7; auto|].
+          split; [cbn; auto|]. cbn. discriminate.
+        * destruct (R l =? 0) eqn:E0; [apply Z.eqb_eq in E0; now apply R_nz in E0|].
+          cbn [negb andb].
+          assert (WWs : cache_wf mut rep (l_cache s2) (l_store s2)).
+          { rewrite A1. eapply wf_store_mono; eauto. }
+          assert (EXP : exp_lset mut rep met = Some l) by (unfold exp_lset; destruct (Z.leb_spec 0 met); [now rewrite MM | lia]).
+          destruct (wf_add_ref mut rep (l_cache s2) (l_store s2) met l it WWs) as (WA & HLE & HNEW & HFRESH); auto.
+          all: try (now rewrite A1).
+          destruct (add_ref (l_cache s2) met (R l) l) as [ca2 eid] eqn:EAR.
+          assert (EID : eid = c_next (l_cache s2)) by (unfold add_ref in EAR; now injection EAR as _ <-).
+          cbn [fst] in WA, HLE, HNEW.
+          set (trk := match pts with Some _ => track_ts c | None => true end).
+          assert (WW3 : cache_wf mut rep (if trk then track ca2 (R l) eid else ca2) (l_store s2)).
+          { destruct trk; auto. apply wf_track with (e := mkEntry (R l) l it); auto. rewrite EID; exact HNEW. }
+          assert (IT2 : c_iter ca2 = it /\ c_prev ca2 = prev0 /\ c_cur ca2 = c_cur (l_cache s) /\
+                        c_series ca2 = aset met eid (c_series (l_cache s)) /\
+                        c_heap ca2 = aset eid (mkEntry (R l) l it) (c_heap (l_cache s))).
+          { unfold add_ref in EAR. injection EAR as <- <-. cbn. rewrite A1, WI. auto. }
+          destruct IT2 as (I1 & I2 & I3 & I4 & I5).
+          eexists. split; [left; reflexivity|].
+          split.
+          { destruct (l_limit_err (with_cache s2 (if trk then track ca2 (R l) eid else ca2)));
+              constructor; cbn [l_cache l_store inc_added inc_sadded with_cache]; auto; destruct trk; cbn; auto. }
+          split.
+          { cbn [l_limit_err with_cache]. intros H. rewrite <- EM in H. rewrite H. cbn. congruence. }
+          intros _ _ S.
+          assert (ND : (match pts with Some _ => false | None => true end && memb met (ab_seen a)) = false).
+          { destruct (memb met (ab_seen a)) eqn:EMB; [|apply andb_false_r]. apply memb_In in EMB.
+            exfalso. eapply (sim_seen_cached _ _ _ _ _ _ S); eauto. }
+          rewrite ND. destruct S.
+          assert (CA : l_cache (inc_added
+                   (if l_limit_err (with_cache s2 (if trk then track ca2 (R l) eid else ca2))
+                    then with_cache s2 (if trk then track ca2 (R l) eid else ca2)
+                    else inc_sadded (with_cache s2 (if trk then track ca2 (R l) eid else ca2))))
+                   = (if trk then track ca2 (R l) eid else ca2)).
+          { destruct (l_limit_err _); reflexivity. }
+          constructor.
+          -- rewrite CA. cbn [ab_seen].
+             assert (SR : seen_rel it (c_series ca2) (c_heap ca2) (met :: ab_seen a)).
+             { rewrite I4, I5. apply seen_rel_add; auto.
+               - rewrite EID. rewrite A1 in HFRESH |- *. exact HFRESH.
+               - intros m x Hx. destruct (wf_series_g _ _ _ _ _ _ WW Hx) as (e0 & He0). congruence. }
+             destruct trk; exact SR.
+          -- rewrite CA. cbn [ab_seen]. intros m [<-|I].
+             ++ destruct trk; cbn; rewrite I4, aget_aset_eq; discriminate.
+             ++ assert (m <> met) by (intros ->; now apply (sim_seen_cached0 _ I)).
+                destruct trk; cbn; rewrite I4, aget_aset_neq by auto; now apply sim_seen_cached0.
+          -- rewrite CA. cbn [ab_tracked].
+             replace (match pts with Some _ => false | None => true end || track_ts c) with trk
+               by (unfold trk; destruct pts; reflexivity).
+             destruct trk; cbn [c_cur track set_cur]; rewrite I3.
+             ++ now apply tracked_rel_track.
+             ++ exact sim_tracked0.
+          -- destruct (l_limit_err _); cbn; rewrite A6; cbn; unfold app_proj at 1; cbn; now rewrite sim_apps0.
+          -- destruct (l_limit_err _); cbn; rewrite A6; constructor; auto.
+          -- destruct (l_limit_err _); cbn; lia.
+          -- destruct (l_limit_err _); cbn; lia.
+      + (* addDropped *)
+        eexists. split; [left; reflexivity|].
+        split; [constructor; cbn; auto; apply wf_set_dropped; auto|].
+        split; [cbn; auto|].
+        intros _ _ S. destruct S. constructor; cbn; auto; lia.
+      + (* rejected series: the scrape fails *)
+        eexists. split; [right; split; reflexivity|].
+        split; [constructor; cbn; auto|]. split; [cbn; auto|]. discriminate.
+  Qed.
+End Sim.
+
+Section Steps.
+  Variable c : cfg.
+  Variable mut : Z -> mres.
+  Variable rep : Z -> Z.
+
+  Definition inb (t : Z) : Prop := min_valid c <= t <= max_valid c.
+  Definition entry_ok (defT : Z) (en : body_entry) : Prop :=
+    0 <= en_met en /\ inb (eff_t c defT en).
+
+  Lemma run_entries_sim it prev0 defT es : forall s a,
+    winv mut rep it prev0 s -> Forall (entry_ok defT) es ->
+    exists s',
+      (run_entries c mut defT s es = LCont s' \/
+       (run_entries c mut defT s es = LAbort s' /\ Exists (fun en => mut (en_met en) = MErr) es)) /\
+      winv mut rep it prev0 s' /\
+      (l_limit_err s = true -> l_limit_err s' = true) /\
+      (run_entries c mut defT s es = LCont s' -> l_limit_err s' = false ->
+       sim it (l_cache s) (l_apps s) (l_total s) (l_added s) a ->
+       sim it (l_cache s') (l_apps s') (l_total s') (l_added s') (fold_left (abs_entry c mut defT) es a)).
+  Proof.
+    induction es as [|en r IH]; intros s a W F.
+    - exists s. cbn. split; [now left|]. split; [exact W|]. split; [auto|]. intros _ _ S; exact S.
+    - inversion F as [|? ? [Hm Ht] F']; subst.
+      destruct (do_entry_sim c mut rep it prev0 defT s a en W Hm Ht) as (s1 & HD & W1 & M1 & S1).
+      cbn [run_entries fold_left].
+      destruct HD as [HD|[HD ME]]; rewrite HD.
+      + destruct (IH s1 (abs_entry c mut defT a en) W1 F') as (s2 & HR & W2 & M2 & S2).
+        exists s2. split; [|split; [exact W2|split; [auto|]]].
+        * destruct HR as [HR|[HR EX]]; [left; exact HR|right; split; [exact HR|now right]].
+        * intros HR2 HL SI. apply S2; auto. apply S1; auto.
+          destruct (l_limit_err s1) eqn:E1; auto. rewrite M2 in HL; auto.
+      + exists s1. split; [right; split; [reflexivity|now left]|]. split; [exact W1|]. split; [exact M1|].
+        discriminate.
+  Qed.
+
+  Lemma stale_appends_ok limited defT : forall l s,
+    store_ok (l_store s) -> inb defT ->
+    Forall (fun p : Z * Z => fst p = R (snd p) /\ aget (snd p) (s_live (l_store s)) = Some (fst p)) l ->
+    exists s', stale_appends c limited defT s l = (s', true) /\
+      l_apps s' = rev (map (fun p : Z * Z => mkApp (fst p) (snd p) defT VStale (fst p)) l) ++ l_apps s /\
+      store_ok (l_store s') /\ live_le (l_store s) (l_store s') /\
+      l_cache s' = l_cache s /\ l_total s' = l_total s /\ l_added s' = l_added s /\
+      l_sadded s' = l_sadded s /\ l_limit_err s' = l_limit_err s.
+  Proof.
+    induction l as [|[r ls] rest IH]; intros s SO Ht F.
+    - exists s. cbn. split; [reflexivity|]. split; [reflexivity|]. split; [exact SO|]. split; [intros ? ? H; exact H|]. repeat split; reflexivity.
+    - inversion F as [|? ? [Hr Hl] F']; subst. cbn [fst snd] in Hr, Hl.
+      destruct (st_append_ok c (l_store s) r ls defT SO (proj1 Ht) (or_intror (conj Hr Hl)))
+        as (st' & EA & SO' & HL' & LE).
+      assert (RN : (r =? 0) = false) by (apply Z.eqb_neq; subst r; apply R_nz).
+      assert (RR : (R ls =? 0) = false) by (apply Z.eqb_neq; apply R_nz).
+      assert (MT : (max_valid c <? defT) = false) by (apply Z.ltb_ge; apply Ht).
+      set (s1 := mkL (l_cache s) st' (mkApp r ls defT VStale (R ls) :: l_apps s) (l_i s)
+                     (l_total s) (l_added s) (l_sadded s) (l_limit_err s)).
+      assert (F1 : Forall (fun p : Z * Z => fst p = R (snd p) /\ aget (snd p) (s_live (l_store s1)) = Some (fst p)) rest).
+      { rewrite Forall_forall in *. intros p I. destruct (F' p I). split; auto. }
+      destruct (IH s1 SO' Ht F1) as (s' & E' & A' & SO'' & LE' & C1 & C2 & C3 & C4 & C5).
+      exists s'. cbn [stale_appends].
+      assert (STEP : (if limited
+                      then let '(s'0, _, err) := limited_append c s r ls defT VStale in
+                           (s'0, match err with ENone => true | _ => false end)
+                      else let '(s'0, rout) := base_append c s r ls defT VStale in (s'0, negb (rout =? 0)))
+                     = (s1, true)).
+      { destruct limited.
+        - unfold limited_append. cbn [is_stale negb]. rewrite RN. cbn [orb]. rewrite andb_false_r. cbn [andb].
+          rewrite MT. unfold base_append. cbn [l_store]. rewrite EA, RR.
+          destruct s; reflexivity.
+        - unfold base_append. rewrite EA, RR. reflexivity. }
+      rewrite STEP. rewrite E'. split; [reflexivity|].
+      cbn [map rev fst snd]. rewrite A'. cbn [l_apps s1]. rewrite <- app_assoc. cbn [Datatypes.app].
+      subst r. split; [reflexivity|]. split; [exact SO''|].
+      split; [intros l0 x H; apply LE'; cbn; now apply LE|].
+      unfold s1 in *. cbn in C1, C2, C3, C4, C5. repeat split; assumption.
+  Qed.
+
+  Lemma stale_list_facts ca st : cache_wf mut rep ca st ->
+    Forall (fun p : Z * Z => fst p = R (snd p) /\ aget (snd p) (s_live st) = Some (fst p)) (stale_list ca) /\
+    (forall l, In l (map snd (stale_list ca)) <->
+               amem (R l) (c_prev ca) = true /\ amem (R l) (c_cur ca) = false).
+  Proof.
+    intros W. pose proof (wf_prev _ _ _ _ W) as WP. unfold tracked_pairs in WP. rewrite Forall_forall in WP.
+    assert (EL : forall r eid, In (r, eid) (c_prev ca) ->
+                 exists e, heap_get ca eid = e /\ e_ref e = r /\ r = R (e_lset e) /\
+                           aget (e_lset e) (s_live st) = Some r).
+    { intros r eid I. destruct (WP _ I) as (e & He & Er). cbn in He, Er.
+      destruct (wf_heap _ _ _ _ W _ _ He) as (_ & HR & HL).
+      exists e. unfold heap_get. rewrite He. repeat split; auto; congruence. }
+    split.
+    - unfold stale_list. apply Forall_forall. intros [r ls] I. apply in_flat_map in I.
+      destruct I as ([r0 eid] & I0 & I1). cbn [fst snd] in I1.
+      destruct (amem r0 (c_cur ca)); [destruct I1|]. destruct I1 as [[= <- <-]|[]].
+      destruct (EL _ _ I0) as (e & <- & E1 & E2 & E3). cbn. split; congruence.
+    - intros l. unfold stale_list. rewrite in_map_iff. split.
+      + intros ([r ls] & <- & I). apply in_flat_map in I. destruct I as ([r0 eid] & I0 & I1). cbn [fst snd] in *.
+        destruct (amem r0 (c_cur ca)) eqn:EC; [destruct I1|]. destruct I1 as [[= <- <-]|[]].
+        destruct (EL _ _ I0) as (e & <- & E1 & E2 & E3). rewrite <- E2. split; auto.
+        eapply In_amem; eauto.
+      + intros [HP HC]. apply amem_In in HP. destruct HP as (eid & I0).
+        destruct (EL _ _ I0) as (e & HG & E1 & E2 & E3). apply R_inj in E2.
+        exists (e_ref e, e_lset e). split; [cbn; congruence|].
+        apply in_flat_map. exists (R l, eid). split; auto. cbn [fst snd]. rewrite HC, HG. now left.
+  Qed.
+End Steps.
+
+Section Hist.
+  Variable c : cfg.
+  Variable mut : Z -> mres.
+  Variable rep : Z -> Z.
+
+  (* invariant between scrapes *)
+  Record ginv (S : cache * store) : Prop := mkG {
+    gi_store : store_ok (snd S);
+    gi_wf : cache_wf mut rep (fst S) (snd S);
+    gi_cur : c_cur (fst S) = [];
+    gi_last : forall met eid e, 0 <= met -> In (met, eid) (c_series (fst S)) ->
+                aget eid (c_heap (fst S)) = Some e -> e_last e < c_iter (fst S)
+  }.
+
+  (* the label sets whose staleness is tracked after a scrape *)
+  Definition tracked (S : cache * store) (l : Z) : Prop := amem (R l) (c_prev (fst S)) = true.
+
+  Lemma ginv_init : ginv (init_cache, init_store).
+  Proof.
+    constructor; cbn; auto.
+    - split; intros ? ? H; discriminate H.
+    - constructor; cbn; try (intros; contradiction); try discriminate; try constructor.
+    - intros; contradiction.
+  Qed.
+
+  Lemma iter_done_ginv ca st flush :
+    store_ok st -> cache_wf mut rep ca st ->
+    ginv (iter_done ca flush, st) /\ c_prev (iter_done ca flush) = c_cur ca.
+  Proof.
+    intros SO W. split; [|reflexivity]. unfold iter_done.
+    set (flush' := flush || _).
+    set (ser := if flush' then filter _ (c_series ca) else c_series ca).
+    set (dro := if flush' then filter _ (c_dropped ca) else c_dropped ca).
+    assert (S1 : forall p, In p ser -> In p (c_series ca)).
+    { unfold ser. destruct flush'; auto. intros p I. apply filter_In in I. tauto. }
+    assert (S2 : forall p, In p dro -> In p (c_dropped ca)).
+    { unfold dro. destruct flush'; auto. intros p I. apply filter_In in I. tauto. }
+    destruct W as [w1 w2 w3 w4 w5 w6 w7]. constructor; cbn [fst snd c_cur c_series c_heap c_iter]; auto.
+    - constructor; cbn [c_series c_heap c_next c_iter c_dropped c_cur c_prev]; auto.
+      + intros met eid I. eapply w1; eauto.
+      + intros m1 m2 eid I1 I2. eapply w2; eauto.
+      + intros met eid e I H. destruct (w4 _ _ _ (S1 _ I) H). split; auto. lia.
+      + intros met it Hm I. eapply w5; eauto.
+      + constructor.
+    - intros met eid e Hm I H. destruct (w4 _ _ _ (S1 _ I) H). lia.
+  Qed.
+
+  Record rinv (s : lstate) : Prop := mkR {
+    ri_store : store_ok (l_store s);
+    ri_wf : cache_wf mut rep (l_cache s) (l_store s);
+    ri_last : forall met eid e, 0 <= met -> In (met, eid) (c_series (l_cache s)) ->
+                aget eid (c_heap (l_cache s)) = Some e -> e_last e < c_iter (l_cache s)
+  }.
+
+  Lemma exp_lset_report idx : 0 <= idx -> exp_lset mut rep (- (idx + 1)) = Some (rep idx).
+  Proof.
+    intros H. unfold exp_lset. destruct (Z.leb_spec 0 (- (idx + 1))); [lia|].
+    f_equal. f_equal. lia.
+  Qed.
+
+  Lemma add_report_ok s idx t v :
+    rinv s -> 0 <= idx -> min_valid c <= t ->
+    exists s' r, add_report c rep s idx t v = (s', true) /\ rinv s' /\
+      c_cur (l_cache s') = c_cur (l_cache s) /\ c_prev (l_cache s') = c_prev (l_cache s) /\
+      c_iter (l_cache s') = c_iter (l_cache s) /\
+      l_apps s' = mkApp r (rep idx) t v (R (rep idx)) :: l_apps s.
+  Proof.
+    intros [RS RW RL] Hi Ht. unfold add_report, cache_get.
+    set (met := - (idx + 1)).
+    assert (Hneg : met < 0) by (unfold met; lia).
+    assert (RR : (R (rep idx) =? 0) = false) by (apply Z.eqb_neq; apply R_nz).
+    destruct (aget met (c_series (l_cache s))) as [eid|] eqn:ES.
+    - destruct (wf_series_g _ _ _ _ _ _ RW ES) as (e & HE).
+      destruct (wf_keep _ _ _ _ RW _ _ _ (aget_In _ _ _ ES) HE) as [EX LE].
+      unfold met in EX. rewrite exp_lset_report in EX by auto. injection EX as EX.
+      destruct (wf_heap _ _ _ _ RW _ _ HE) as (HN & HR & HLIVE).
+      assert (HG0 : heap_get (l_cache s) eid = e) by (unfold heap_get; now rewrite HE).
+      cbv beta iota zeta. rewrite !HG0.
+      set (e1 := mkEntry (e_ref e) (e_lset e) (c_iter (l_cache s))).
+      set (ca1 := set_heap (l_cache s) (aset eid e1 (c_heap (l_cache s)))).
+      assert (HG1 : heap_get ca1 eid = e1) by (unfold heap_get, ca1; cbn; now rewrite aget_aset_eq).
+      assert (WW1 : cache_wf mut rep ca1 (l_store s)) by (apply wf_touch; auto; lia).
+      rewrite !HG1. cbn [e_ref e_lset e1].
+      unfold base_append. cbn [l_store with_cache].
+      destruct (st_append_ok c (l_store s) (e_ref e) (e_lset e) t RS Ht) as (st' & EA & SO' & HL' & LE').
+      { right. split; auto. }
+      rewrite EA. rewrite EX in RR. rewrite RR.
+      eexists. exists (e_ref e). split; [reflexivity|]. cbn. rewrite EX.
+      split; [|repeat split; auto].
+      constructor; cbn; auto.
+      + eapply wf_store_mono; eauto.
+      + intros met' eid' e' Hm' I'. destruct (Z.eq_dec eid' eid) as [->|N].
+        * assert (met' = met) by (eapply (wf_inj _ _ _ _ RW); eauto using aget_In). lia.
+        * rewrite aget_aset_neq by auto. intros H'. eapply RL; eauto.
+    - cbv beta iota zeta. unfold base_append. cbn [l_store with_cache l_cache].
+      destruct (st_append_ok c (l_store s) 0 (rep idx) t RS Ht (or_introl eq_refl)) as (st' & EA & SO' & HL' & LE').
+      rewrite EA, RR. cbn [l_cache].
+      assert (WWs : cache_wf mut rep (l_cache s) st') by (eapply wf_store_mono; eauto).
+      destruct (wf_add_ref mut rep (l_cache s) st' met (rep idx) (c_iter (l_cache s)) WWs)
+        as (WA & HLE & HNEW & HFRESH); auto.
+      { unfold met. now apply exp_lset_report. }
+      eexists. exists 0. split; [reflexivity|].
+      split; [|repeat split; reflexivity].
+      constructor; cbn [l_store l_cache with_cache]; auto.
+      intros met' eid' e' Hm' I'. unfold add_ref in *. cbn [fst c_series c_heap c_iter] in *.
+      destruct (In_aset _ _ _ _ _ I') as [[-> ->]|I'']; [lia|].
+      assert (eid' <> c_next (l_cache s)).
+      { intros ->. destruct (wf_series _ _ _ _ RW _ _ I''). congruence. }
+      rewrite aget_aset_neq by auto. intros H'. eapply RL; eauto.
+  Qed.
+
+  Lemma add_reports_ok t vals : forall s,
+    rinv s -> min_valid c <= t -> Forall (fun p : Z * val => 0 <= fst p) vals ->
+    exists s' new, add_reports c rep s t vals = (s', true) /\ rinv s' /\
+      c_cur (l_cache s') = c_cur (l_cache s) /\ c_prev (l_cache s') = c_prev (l_cache s) /\
+      c_iter (l_cache s') = c_iter (l_cache s) /\
+      l_apps s' = rev new ++ l_apps s /\
+      map app_proj new = map (fun p : Z * val => (rep (fst p), t, snd p)) vals /\
+      Forall (fun x => a_rout x = R (a_lset x)) new.
+  Proof.
+    induction vals as [|[idx v] rest IH]; intros s RI Ht F.
+    - exists s, []. cbn. split; [reflexivity|]. split; [exact RI|]. repeat split; auto.
+    - inversion F as [|? ? Hi F']; subst. cbn [fst] in Hi.
+      destruct (add_report_ok s idx t v RI Hi Ht) as (s1 & r & E1 & R1 & C1 & C2 & C3 & A1).
+      destruct (IH s1 R1 Ht F') as (s2 & new & E2 & R2 & D1 & D2 & D3 & A2 & M2 & F2).
+      exists s2, (mkApp r (rep idx) t v (R (rep idx)) :: new).
+      cbn [add_reports]. rewrite E1, E2. split; [reflexivity|]. split; [exact R2|].
+      repeat split; try congruence.
+      + rewrite A2, A1. cbn [rev]. now rewrite <- app_assoc.
+      + cbn [map]. rewrite M2. reflexivity.
+      + constructor; auto.
+  Qed.
+
+  Lemma report_vals_idx up total added sadded bytes :
+    Forall (fun p : Z * val => 0 <= fst p) (report_vals c up total added sadded bytes).
+  Proof. unfold report_vals. destruct (extra c); repeat constructor; cbn; lia. Qed.
+  Lemma stale_report_vals_idx : Forall (fun p : Z * val => 0 <= fst p) (stale_report_vals c).
+  Proof. unfold stale_report_vals. destruct (extra c); repeat constructor; cbn; lia. Qed.
+
+  Definition marker_ok (x : app) : Prop := a_rout x = a_rin x /\ a_rin x = R (a_lset x).
+  Definition report_apps (t : Z) (vals : list (Z * val)) (reps : list app) : Prop :=
+    map app_proj reps = map (fun p : Z * val => (rep (fst p), t, snd p)) vals /\
+    Forall (fun x => a_rout x = R (a_lset x)) reps.
+
+  (* the tail of every step: markers for everything tracked before and not seen now, report *)
+  Lemma finish_ok t ca st vals :
+    store_ok st -> cache_wf mut rep ca st -> inb c t -> Forall (fun p : Z * val => 0 <= fst p) vals ->
+    exists ca' st' markers reps,
+      finish c rep t ca st vals = (ca', st', [mkBatch true (markers ++ reps)]) /\
+      ginv (ca', st') /\
+      Forall (marker_at t) markers /\ Forall marker_ok markers /\
+      (forall l, In l (map a_lset markers) <->
+                 amem (R l) (c_prev ca) = true /\ amem (R l) (c_cur ca) = false) /\
+      report_apps t vals reps /\
+      (forall l, tracked (ca', st') l <-> amem (R l) (c_cur ca) = true).
+  Proof.
+    intros SO W Ht FV. unfold finish, append_empty.
+    destruct (stale_list_facts mut rep ca st W) as [SF SL].
+    destruct (stale_appends_ok c false t (stale_list ca) (fresh ca st) SO Ht SF)
+      as (s1 & E1 & A1 & SO1 & LE1 & C1 & _).
+    change (l_cache (fresh ca st)) with ca. rewrite E1. cbn [l_cache fresh l_apps l_store] in *.
+    rewrite app_nil_r in A1.
+    assert (W1 : cache_wf mut rep ca (l_store s1)) by (eapply wf_store_mono; eauto).
+    rewrite C1.
+    destruct (iter_done_ginv ca (l_store s1) false SO1 W1) as [G EP].
+    set (s2 := with_cache s1 (iter_done ca false)).
+    assert (R2 : rinv s2).
+    { destruct G. constructor; cbn; auto. }
+    destruct (add_reports_ok t vals s2 R2 (proj1 Ht) FV) as (s3 & new & E3 & R3 & D1 & D2 & D3 & A3 & M3 & F3).
+    rewrite E3.
+    set (mk := map (fun p : Z * Z => mkApp (fst p) (snd p) t VStale (fst p)) (stale_list ca)).
+    exists (l_cache s3), (l_store s3), mk, new.
+    split.
+    { unfold batch_of. rewrite A3. cbn [l_apps s2 with_cache]. rewrite A1.
+      rewrite rev_app_distr, !rev_involutive. reflexivity. }
+    split.
+    { destruct R3 as [r1 r2 r3]. destruct G as [g1 g2 g3 g4]. constructor; cbn [fst snd]; auto.
+      all: try (rewrite D1; exact g3). }
+    split.
+    { unfold mk. apply Forall_forall. intros x I. apply in_map_iff in I. destruct I as (p & <- & _). split; reflexivity. }
+    split.
+    { unfold mk. apply Forall_forall. intros x I. apply in_map_iff in I. destruct I as (p & <- & Ip).
+      rewrite Forall_forall in SF. destruct (SF _ Ip). split; cbn; auto. }
+    split.
+    { intros l. rewrite <- SL. unfold mk. rewrite !map_map. cbn. reflexivity. }
+    split; [split; auto|].
+    intros l. unfold tracked. cbn [fst]. rewrite D2. cbn [l_cache s2 with_cache]. rewrite EP. reflexivity.
+  Qed.
+End Hist.
+
+Section StepTheorems.
+  Variable c : cfg.
+  Variable mut : Z -> mres.
+  Variable rep : Z -> Z.
+
+  (* steps covered by Part 2: no reference change (the storage forgets no series), scrape time
+     and explicit timestamps accepted by the storage, metric texts are not report names *)
+  Definition step_ok (sp : step) : Prop :=
+    st_gc sp = [] /\ inb c (st_time sp) /\
+    match st_out sp with
+    | OBody es _ _ => Forall (entry_ok c (st_time sp)) es
+    | _ => True
+    end.
+
+  Lemma st_gc_nil st : st_gc_apply st [] = st.
+  Proof. destruct st; reflexivity. Qed.
+
+  Definition quiet_vals (sp : step) : list (Z * val) :=
+    match st_out sp with
+    | OFail bsz => report_vals c 0 0 0 0 (if bsz then -1 else 0)
+    | OGone => stale_report_vals c
+    | OBody _ _ _ => report_vals c 1 0 0 0 0
+    end.
+
+  Definition quiet (sp : step) : Prop :=
+    match st_out sp with OBody _ _ len => len = 0 | _ => True end.
+
+  (* scrape error, empty body, end of run: a marker for every tracked series, nothing tracked afterwards *)
+  Lemma quiet_step S sp S' bs :
+    ginv mut rep S -> step_ok sp -> quiet sp -> do_step c mut rep S sp = (S', bs) ->
+    exists markers reps,
+      bs = [mkBatch true (markers ++ reps)] /\
+      Forall (marker_at (st_time sp)) markers /\ Forall marker_ok markers /\
+      (forall l, In l (map a_lset markers) <-> tracked S l) /\
+      report_apps rep (st_time sp) (quiet_vals sp) reps /\
+      ginv mut rep S' /\ (forall l, ~ tracked S' l).
+  Proof.
+    intros [G1 G2 G3 G4] (HG & HT & HE) HQ. destruct S as [ca st]. cbn [fst snd] in *.
+    unfold do_step, quiet, quiet_vals in *. rewrite HG, st_gc_nil.
+    assert (FIN : forall vals, Forall (fun p : Z * val => 0 <= fst p) vals ->
+              forall ca' st' bs', finish c rep (st_time sp) ca st vals = (ca', st', bs') ->
+              exists markers reps,
+                bs' = [mkBatch true (markers ++ reps)] /\
+                Forall (marker_at (st_time sp)) markers /\ Forall marker_ok markers /\
+                (forall l, In l (map a_lset markers) <-> tracked (ca, st) l) /\
+                report_apps rep (st_time sp) vals reps /\
+                ginv mut rep (ca', st') /\ (forall l, ~ tracked (ca', st') l)).
+    { intros vals FV ca' st' bs' EF.
+      destruct (finish_ok c mut rep (st_time sp) ca st vals G1 G2 HT FV)
+        as (ca2 & st2 & mk & reps & EF2 & GI & M1 & M2 & M3 & RA & TR).
+      rewrite EF2 in EF. injection EF as <- <- <-.
+      exists mk, reps. split; [reflexivity|]. split; [exact M1|]. split; [exact M2|].
+      split; [|split; [exact RA|split; [exact GI|]]].
+      - intros l. rewrite M3. unfold tracked. cbn [fst]. rewrite G3. cbn. tauto.
+      - intros l T. apply TR in T. rewrite G3 in T. discriminate. }
+    destruct (st_out sp) as [es bad len|bsz|].
+    - subst len. cbn [Z.eqb].
+      destruct (finish c rep (st_time sp) ca st (report_vals c 1 0 0 0 0)) as [[ca' st'] bs'] eqn:EF.
+      intros [= <- <-]. eapply FIN; eauto. apply report_vals_idx.
+    - destruct (finish c rep (st_time sp) ca st _) as [[ca' st'] bs'] eqn:EF.
+      intros [= <- <-]. eapply FIN; eauto. apply report_vals_idx.
+    - destruct (finish c rep (st_time sp) ca st _) as [[ca' st'] bs'] eqn:EF.
+      intros [= <- <-]. eapply FIN; eauto. apply stale_report_vals_idx.
+  Qed.
+
+  Lemma winv_fresh ca st : ginv mut rep (ca, st) -> winv mut rep (c_iter ca) (c_prev ca) (fresh ca st).
+  Proof. intros [G1 G2 G3 G4]. constructor; cbn; auto. Qed.
+
+  Lemma sim_fresh ca st : ginv mut rep (ca, st) -> sim (c_iter ca) ca [] 0 0 abs0.
+  Proof.
+    intros [G1 G2 G3 G4]. cbn [fst snd] in *. constructor; cbn; auto.
+    - intros met eid e Hm Hs He. pose proof (G4 _ _ _ Hm (aget_In _ _ _ Hs) He). split; [lia|tauto].
+    - intros l. rewrite G3. cbn. split; [discriminate|tauto].
+  Qed.
+
+  (* a body that scrapeLoop.append accepts *)
+  Lemma body_step S sp es len S' bs :
+    ginv mut rep S -> step_ok sp -> st_out sp = OBody es false len -> len <> 0 ->
+    do_step c mut rep S sp = (S', bs) -> ~ step_failed c mut S sp ->
+    exists samples markers reps sadded,
+      bs = [mkBatch true (samples ++ markers ++ reps)] /\
+      map app_proj samples = map samp_inj (rev (ab_samples (abs_body c mut (st_time sp) es))) /\
+      Forall (fun x => a_rout x = R (a_lset x)) samples /\
+      Forall (marker_at (st_time sp)) markers /\ Forall marker_ok markers /\
+      (forall l, In l (map a_lset markers) <->
+                 tracked S l /\ ~ In l (ab_tracked (abs_body c mut (st_time sp) es))) /\
+      report_apps rep (st_time sp)
+        (report_vals c 1 (ab_total (abs_body c mut (st_time sp) es))
+                     (ab_added (abs_body c mut (st_time sp) es)) sadded len) reps /\
+      ginv mut rep S' /\
+      (forall l, tracked S' l <-> In l (ab_tracked (abs_body c mut (st_time sp) es))).
+  Proof.
+    intros G (HG & HT & HE) HO HL. destruct S as [ca st].
+    unfold do_step, step_failed. cbn [fst snd]. rewrite HO in *. rewrite HG, st_gc_nil.
+    apply Z.eqb_neq in HL. rewrite HL. apply Z.eqb_neq in HL.
+    set (t := st_time sp) in *.
+    unfold append_body.
+    destruct (run_entries_sim c mut rep (c_iter ca) (c_prev ca) t es (fresh ca st) abs0 (winv_fresh _ _ G) HE)
+      as (s1 & HR & W1 & _ & S1).
+    destruct HR as [HR|[HR _]]; rewrite HR.
+    2:{ cbn. intros _ NF. exfalso. apply NF. split; auto. }
+    destruct (l_limit_err s1) eqn:ELIM.
+    { cbn. intros _ NF. exfalso. apply NF. split; auto. }
+    specialize (S1 HR eq_refl (sim_fresh _ _ G)). fold (abs_body c mut t es) in S1.
+    set (a := abs_body c mut t es) in *.
+    destruct W1 as [WS WW WI WP].
+    destruct (stale_list_facts mut rep (l_cache s1) (l_store s1) WW) as [SF SL].
+    destruct (stale_appends_ok c true t (stale_list (l_cache s1)) s1 WS HT SF)
+      as (s2 & E2 & A2 & SO2 & LE2 & C1 & C2 & C3 & C4 & C5).
+    rewrite E2.
+    assert (W2 : cache_wf mut rep (l_cache s1) (l_store s2)) by (eapply wf_store_mono; eauto).
+    destruct (iter_done_ginv mut rep (l_cache s1) (l_store s2) true SO2 W2) as [GI EP].
+    rewrite C1.
+    set (s3 := with_cache s2 (iter_done (l_cache s1) true)).
+    assert (R3 : rinv mut rep s3).
+    { destruct GI as [g1 g2 g3 g4]. constructor; cbn; auto. }
+    cbn [l_total l_added l_sadded s3 with_cache].
+    destruct (add_reports_ok c mut rep t (report_vals c 1 (l_total s2) (l_added s2) (l_sadded s2) len) s3 R3 (proj1 HT)
+                (report_vals_idx c _ _ _ _ _))
+      as (s4 & new & E4 & R4 & D1 & D2 & D3 & A4 & M4 & F4).
+    fold s3. rewrite E4. intros [= <- <-] _.
+    set (mk := map (fun p : Z * Z => mkApp (fst p) (snd p) t VStale (fst p)) (stale_list (l_cache s1))) in *.
+    exists (rev (l_apps s1)), mk, new, (l_sadded s2).
+    destruct S1 as [s_seen s_cached s_tracked s_apps s_rout s_total s_added].
+    split.
+    { unfold batch_of. rewrite A4. cbn [l_apps s3 with_cache]. rewrite A2.
+      rewrite !rev_app_distr, !rev_involutive. now rewrite app_assoc. }
+    split. { rewrite map_rev, s_apps, map_rev. reflexivity. }
+    split. { apply Forall_rev. exact s_rout. }
+    split.
+    { unfold mk. apply Forall_forall. intros x I. apply in_map_iff in I. destruct I as (p & <- & _). split; reflexivity. }
+    split.
+    { unfold mk. apply Forall_forall. intros x I. apply in_map_iff in I. destruct I as (p & <- & Ip).
+      rewrite Forall_forall in SF. destruct (SF _ Ip). split; cbn; auto. }
+    split.
+    { intros l. unfold mk. rewrite map_map. cbn [a_lset]. rewrite (SL l). unfold tracked. cbn [fst].
+      rewrite WP. rewrite <- (s_tracked l).
+      destruct (amem (R l) (c_cur (l_cache s1))); split; intros [X Y]; split; auto; congruence. }
+    split. { rewrite <- s_total, <- s_added, <- C2, <- C3. split; auto. }
+    split.
+    { destruct R4 as [r1 r2 r3]. destruct GI as [g1 g2 g3 g4]. constructor; cbn [fst snd]; auto.
+      all: try (rewrite D1; exact g3). }
+    intros l. unfold tracked. cbn [fst]. rewrite D2. cbn [l_cache s3 with_cache]. rewrite EP.
+    apply s_tracked.
+  Qed.
+
+  (* a body that scrapeLoop.append rejects: the invariant survives *)
+  Lemma failed_body_step S sp es bad len S' bs :
+    ginv mut rep S -> step_ok sp -> st_out sp = OBody es bad len -> len <> 0 ->
+    do_step c mut rep S sp = (S', bs) -> step_failed c mut S sp -> ginv mut rep S'.
+  Proof.
+    intros G (HG & HT & HE) HO HL. destruct S as [ca st].
+    unfold do_step, step_failed. cbn [fst snd]. rewrite HO in *. rewrite HG, st_gc_nil.
+    apply Z.eqb_neq in HL. rewrite HL.
+    set (t := st_time sp) in *.
+    destruct (append_body c mut t ca st es bad) as [s1 ok] eqn:EA. cbn [snd].
+    intros H [_ ->].
+    assert (W1 : store_ok (l_store s1) /\ cache_wf mut rep (l_cache s1) (l_store s1)).
+    { unfold append_body in EA.
+      destruct (run_entries_sim c mut rep (c_iter ca) (c_prev ca) t es (fresh ca st) abs0 (winv_fresh _ _ G) HE)
+        as (s0 & HR & [WS WW WI WP] & _ & _).
+      destruct HR as [HR|[HR _]]; rewrite HR in EA.
+      2:{ injection EA as <-. auto. }
+      destruct bad; [injection EA as <-; auto|].
+      destruct (l_limit_err s0); [injection EA as <-; auto|].
+      destruct (stale_list_facts mut rep (l_cache s0) (l_store s0) WW) as [SF SL].
+      destruct (stale_appends_ok c true t (stale_list (l_cache s0)) s0 WS HT SF)
+        as (s2 & E2 & _). rewrite E2 in EA. discriminate EA. }
+    destruct W1 as [WS WW].
+    destruct (finish_ok c mut rep t (l_cache s1) (l_store s1) (report_vals c 0 (l_total s1) (l_added s1) (l_sadded s1) len)
+                WS WW HT (report_vals_idx c _ _ _ _ _))
+      as (ca2 & st2 & mk & reps & EF2 & GI & _).
+    rewrite EF2 in H. injection H as <- _. exact GI.
+  Qed.
+
+  Lemma step_ginv S sp : ginv mut rep S -> step_ok sp -> ginv mut rep (fst (do_step c mut rep S sp)).
+  Proof.
+    intros G OK. destruct (do_step c mut rep S sp) as [S' bs] eqn:E. cbn [fst].
+    destruct (st_out sp) as [es bad len|bsz|] eqn:HO.
+    - destruct (Z.eq_dec len 0) as [->|N].
+      + destruct (quiet_step S sp S' bs G OK) as (? & ? & _ & _ & _ & _ & _ & GI & _); auto.
+        unfold quiet. now rewrite HO.
+      + destruct (append_body c mut (st_time sp) (fst S) (st_gc_apply (snd S) (st_gc sp)) es bad) as [s1 ok] eqn:EA.
+        destruct ok.
+        * destruct bad.
+          { exfalso. unfold append_body in EA. destruct (run_entries _ _ _ _ _); discriminate. }
+          destruct (body_step S sp es len S' bs G OK HO N E) as (? & ? & ? & ? & _ & _ & _ & _ & _ & _ & _ & GI & _); auto.
+          unfold step_failed. rewrite HO, EA. cbn. intros [_ X]; discriminate.
+        * eapply failed_body_step; eauto. unfold step_failed. rewrite HO, EA. auto.
+    - destruct (quiet_step S sp S' bs G OK) as (? & ? & _ & _ & _ & _ & _ & GI & _); auto.
+      unfold quiet. now rewrite HO.
+    - destruct (quiet_step S sp S' bs G OK) as (? & ? & _ & _ & _ & _ & _ & GI & _); auto.
+      unfold quiet. now rewrite HO.
+  Qed.
+
+  Lemma fold_ginv h : forall S, ginv mut rep S -> Forall step_ok h ->
+    ginv mut rep (fold_left (fun S sp => fst (do_step c mut rep S sp)) h S).
+  Proof.
+    induction h as [|sp r IH]; intros S G F; cbn; auto.
+    inversion F; subst. apply IH; auto. now apply step_ginv.
+  Qed.
+
+  Lemma reachable_ginv h : Forall step_ok h -> ginv mut rep (state_after c mut rep h).
+  Proof. intros F. unfold state_after. apply fold_ginv; auto. apply ginv_init. Qed.
+End StepTheorems.
+
+Section HistoryTheorems.
+  Variable c : cfg.
+  Variable mut : Z -> mres.
+  Variable rep : Z -> Z.
+
+  Lemma state_after_snoc h sp :
+    state_after c mut rep (h ++ [sp]) = fst (do_step c mut rep (state_after c mut rep h) sp).
+  Proof. unfold state_after. now rewrite fold_left_app. Qed.
+
+  (* staleness markers at scrape k+1 = series tracked by body k minus series tracked by body k+1,
+     for two consecutive accepted bodies after any history *)
+  Lemma consecutive_bodies h sp1 sp2 es1 len1 es2 len2 S2 bs2 :
+    Forall (step_ok c) h -> step_ok c sp1 -> step_ok c sp2 ->
+    st_out sp1 = OBody es1 false len1 -> len1 <> 0 ->
+    st_out sp2 = OBody es2 false len2 -> len2 <> 0 ->
+    ~ step_failed c mut (state_after c mut rep h) sp1 ->
+    ~ step_failed c mut (state_after c mut rep (h ++ [sp1])) sp2 ->
+    do_step c mut rep (state_after c mut rep (h ++ [sp1])) sp2 = (S2, bs2) ->
+    exists samples markers reps,
+      bs2 = [mkBatch true (samples ++ markers ++ reps)] /\
+      Forall (marker_at (st_time sp2)) markers /\
+      (forall l, In l (map a_lset markers) <->
+                 In l (ab_tracked (abs_body c mut (st_time sp1) es1)) /\
+                 ~ In l (ab_tracked (abs_body c mut (st_time sp2) es2))).
+  Proof.
+    intros FH OK1 OK2 HO1 HL1 HO2 HL2 NF1 NF2 E2.
+    pose proof (reachable_ginv c mut rep h FH) as G0.
+    destruct (do_step c mut rep (state_after c mut rep h) sp1) as [S1 bs1] eqn:E1.
+    destruct (body_step c mut rep _ sp1 es1 len1 S1 bs1 G0 OK1 HO1 HL1 E1 NF1)
+      as (_ & _ & _ & _ & _ & _ & _ & _ & _ & _ & _ & G1 & T1).
+    assert (ES : state_after c mut rep (h ++ [sp1]) = S1) by (rewrite state_after_snoc, E1; reflexivity).
+    rewrite ES in *.
+    destruct (body_step c mut rep S1 sp2 es2 len2 S2 bs2 G1 OK2 HO2 HL2 E2 NF2)
+      as (sm & mk & rp & sa & B & _ & _ & M1 & _ & M3 & _).
+    exists sm, mk, rp. split; [exact B|]. split; [exact M1|].
+    intros l. rewrite M3, T1. tauto.
+  Qed.
+
+  (* what a tracked label set is, in terms of the body alone *)
+  Lemma ab_tracked_sound t es : forall a l,
+    In l (ab_tracked (fold_left (abs_entry c mut t) es a)) ->
+    In l (ab_tracked a) \/
+    exists en, In en es /\ mut (en_met en) = MKeep l /\ (nots c en = true \/ track_ts c = true).
+  Proof.
+    induction es as [|en r IH]; intros a l; cbn [fold_left]; auto.
+    intros I. destruct (IH _ _ I) as [I'|(en' & I1 & I2)].
+    - unfold abs_entry in I'. destruct (mut (en_met en)) as [l0| |] eqn:EM; cbn in I'; auto.
+      destruct (nots c en && memb (en_met en) (ab_seen a)); cbn in I'; auto.
+      destruct (nots c en || track_ts c) eqn:ET; auto.
+      destruct I' as [<-|I']; auto. right. exists en. split; [now left|]. split; auto.
+      apply orb_true_iff in ET. exact ET.
+    - right. exists en'. split; [now right|exact I2].
+  Qed.
+End HistoryTheorems.
+
+(* ------------------------------------------------------------------ Part 3: the refutation *)
+Definition has_marker (bs : list batch) (l : Z) : bool :=
+  existsb (fun b => b_commit b &&
+                    existsb (fun x => is_stale (a_val x) && (a_lset x =? l)) (b_apps b)) bs.
+
+Definition rf_cfg : cfg := mkCfg true false 2 false 10 0 1000000.
+Definition rf_mut (m : Z) : mres := MKeep m.
+Definition rf_rep (i : Z) : Z := 100 + i.
+Definition rf_h : list step := [mkStep 1000 [] (OBody [mkE 1 None 5; mkE 2 None 6] false 8)].
+Definition rf_sp : step := mkStep 2000 [] (OBody [mkE 1 None 7; mkE 2 None 8; mkE 3 None 9] false 12).
+
+(* label set 1 was stored and tracked by the first scrape; the second scrape exceeds
+   sample_limit = 2 after two samples were appended: it fails (up = 0, nothing of it stored) but
+   commits no staleness marker for label set 1 *)
+Lemma failed_body_marks_all_refuted :
+  exists c mut rep h sp,
+    Forall (step_ok c) h /\ step_ok c sp /\
+    step_failed c mut (state_after c mut rep h) sp /\
+    tracked (state_after c mut rep h) 1 /\
+    has_marker (snd (do_step c mut rep (state_after c mut rep h) sp)) 1 = false.
+Proof.
+  exists rf_cfg, rf_mut, rf_rep, rf_h, rf_sp.
+  split; [|split; [|split; [|split]]].
+  - repeat constructor; cbn; lia.
+  - repeat constructor; cbn; lia.
+  - unfold step_failed. cbn [st_out rf_sp]. split; [lia|]. vm_compute. reflexivity.
+  - unfold tracked. vm_compute. reflexivity.
+  - vm_compute. reflexivity.
+Qed.
+
+(* the hypotheses of body_step / consecutive_bodies are satisfiable (and the marker set non-empty) *)
+Definition nv_cfg : cfg := mkCfg true false 0 false 10 0 1000000.
+Definition nv_sp1 : step := mkStep 1000 [] (OBody [mkE 1 None 5; mkE 2 None 6; mkE 2 None 7] false 12).
+Definition nv_sp2 : step := mkStep 2000 [] (OBody [mkE 2 None 7; mkE 3 (Some 1500) 9] false 12).
+Lemma nonvacuous_example :
+  Forall (step_ok nv_cfg) [nv_sp1] /\ step_ok nv_cfg nv_sp2 /\
+  ~ step_failed nv_cfg rf_mut (state_after nv_cfg rf_mut rf_rep [nv_sp1]) nv_sp2 /\
+  ab_tracked (abs_body nv_cfg rf_mut 1000 [mkE 1 None 5; mkE 2 None 6; mkE 2 None 7]) = [2; 1] /\
+  ab_tracked (abs_body nv_cfg rf_mut 2000 [mkE 2 None 7; mkE 3 (Some 1500) 9]) = [2] /\
+  has_marker (snd (do_step nv_cfg rf_mut rf_rep (state_after nv_cfg rf_mut rf_rep [nv_sp1]) nv_sp2)) 1 = true.
+Proof.
+  split; [|split; [|split; [|split; [|split]]]].
+  - repeat constructor; cbn; lia.
+  - repeat constructor; cbn; lia.
+  - unfold step_failed. cbn [st_out nv_sp2]. intros [_ H]. vm_compute in H. discriminate.
+  - vm_compute. reflexivity.
+  - vm_compute. reflexivity.
+  - vm_compute. reflexivity.
+Qed.
